@@ -242,6 +242,17 @@ def _run_case(env, tag, rel, scope, oracle, steps, sfx="", key_orders="both", **
         _check_chain(env, tag, rel, scope, oracle, case, sfx, **kw)
 
 
+def _build(env, tag, make):
+    """construct the relation under contract; an exception of the constructor is a failed
+    obligation, not a harness error"""
+    r = env.call(make)
+    if isinstance(r, Raised):
+        env.cover("post")
+        _prove(env, tag + ".relation-can-be-built", False, detail=lambda: r.tb)
+        return None
+    return r
+
+
 def _mk_func(argnames, cell):
     """a plain python function with exactly these named arguments (no defaults, no
     closure cells that func_args could mistake for arguments)"""
@@ -260,7 +271,10 @@ def h_matrix(env):
     vs = _mk_vars(_doms(env, p))
     if env.choice("variable-list-order", ["given", "reversed"]) == "reversed":
         vs = list(reversed(vs))
-    rel, cells = fx.matrix_relation(env, "mat", vs)
+    built = _build(env, "matrix", lambda: fx.matrix_relation(env, "mat", vs))
+    if built is None:
+        return
+    rel, cells = built
     oracle = lambda a: cells[tuple(a[v.name] for v in vs)]  # noqa
     if p.get("extra"):
         chain = env.choice("case", _with_extras(_chains(_names(vs), "one", "all")))
@@ -297,30 +311,33 @@ def h_function(env):
     sfx = ""
     scope = vs
     if build == "positional":
-        rel = R.NAryFunctionRelation(_mk_func(["p%d" % i for i in range(len(vs))], tab.cell), vs, name="r")
+        make = lambda: R.NAryFunctionRelation(_mk_func(["p%d" % i for i in range(len(vs))], tab.cell), vs, name="r")  # noqa
     elif build == "decorator":
-        rel = R.AsNAryFunctionRelation(*vs)(_mk_func(["p%d" % i for i in range(len(vs))], tab.cell))
+        make = lambda: R.AsNAryFunctionRelation(*vs)(_mk_func(["p%d" % i for i in range(len(vs))], tab.cell))  # noqa
     elif build in ("kwargs-fallback", "f_kwargs"):
         def g(**kw):
             return tab(**kw)
         order = env.choice("variable-list-order", list(itertools.permutations(range(len(vs)))))
         scope = [vs[i] for i in order]
-        rel = R.NAryFunctionRelation(g, scope, name="r", f_kwargs=(build == "f_kwargs"))
+        make = lambda: R.NAryFunctionRelation(g, scope, name="r", f_kwargs=(build == "f_kwargs"))  # noqa
     elif build == "named-f_kwargs":
         # f_kwargs=True: "the arguments name must map the variables names", any list order
         order = env.choice("variable-list-order", list(itertools.permutations(range(len(vs)))))
         scope = [vs[i] for i in order]
         if list(order) != sorted(order):
             sfx = "[list-order-differs-from-argument-order]"
-        rel = R.NAryFunctionRelation(_mk_func(_names(vs), tab.cell), scope, name="r", f_kwargs=True)
+        make = lambda: R.NAryFunctionRelation(_mk_func(_names(vs), tab.cell), scope, name="r", f_kwargs=True)  # noqa
     elif build == "partial-base":
         # a functools.partial as the relation function (func_args supports keyword partials)
         args = ["p%d" % i for i in range(len(vs))]
         k = len(args) // 2
         f2 = _mk_func(args[:k] + ["fixed"] + args[k:], lambda key: tab.cell(key[:k] + key[k + 1:]) if key[k] == 5 else None)
-        rel = R.NAryFunctionRelation(functools.partial(f2, fixed=5), vs, name="r")
+        make = lambda: R.NAryFunctionRelation(functools.partial(f2, fixed=5), vs, name="r")  # noqa
     else:
         raise ValueError(build)
+    rel = _build(env, "function[%s]" % build, make)
+    if rel is None:
+        return
     _run_case(env, "function[%s]" % build, rel, scope, oracle, p["steps"], sfx)
 
 
@@ -346,22 +363,25 @@ def h_simple(env):
     if kind == "unary-function":
         x = Variable("q", fx.domain("d", [10, 0, 5]))
         tab = fx.LazyTable(env, "u", [x])
-        rel = R.UnaryFunctionRelation("u", x, lambda v: tab.cell((v,)))
+        make = lambda: R.UnaryFunctionRelation("u", x, lambda v: tab.cell((v,)))  # noqa
         scope, oracle = [x], (lambda a: tab.cell((a["q"],)))
     elif kind == "unary-boolean":
         x = Variable("q", fx.domain("d", [5, 0, "", "k", 0.5]))
-        rel = R.UnaryBooleanRelation("ub", x)
+        make = lambda: R.UnaryBooleanRelation("ub", x)  # noqa
         scope, oracle = [x], (lambda a: bool(a["q"]))
     elif kind == "zero-ary":
         val = env.real("value")
-        rel = R.ZeroAryRelation("z", val)
+        make = lambda: R.ZeroAryRelation("z", val)  # noqa
         scope, oracle = [], (lambda a: val)
     elif kind == "neutral":
         scope = _mk_vars(_doms(env, p))
-        rel = R.NeutralRelation(scope, "neutral")
+        make = lambda: R.NeutralRelation(scope, "neutral")  # noqa
         oracle = lambda a: 0  # noqa
     else:
         raise ValueError(kind)
+    rel = _build(env, kind, make)
+    if rel is None:
+        return
     _run_case(env, kind, rel, scope, oracle, p["steps"])
 
 
@@ -391,16 +411,16 @@ def h_conditional(env):
     kkind = env.choice("consequence-kind", p.get("kkinds", ["matrix", "function"]))
     rn = env.choice("return_neutral", [False, True])
     # the condition: concrete (it is branched on), non-boolean truthy/falsy results
-    if ckind == "unary-boolean":
-        if len(cvs) != 1:
-            env.assume(False)
-        cond = R.UnaryBooleanRelation("cnd", cvs[0])
-        truth_of = lambda key: bool(key[0])  # noqa
-    else:
-        keys = list(itertools.product(*[list(v.domain) for v in cvs]))
-        table = {k: _TRUTH[i % len(_TRUTH)] for i, k in enumerate(keys)}
-        truth_of = lambda key: table[key]  # noqa
-        if ckind == "function":
+    if ckind == "unary-boolean" and len(cvs) != 1:
+        env.assume(False)
+    keys = list(itertools.product(*[list(v.domain) for v in cvs]))
+    table = {k: (bool(k[0]) if ckind == "unary-boolean" else _TRUTH[i % len(_TRUTH)]) for i, k in enumerate(keys)}
+    truth_of = lambda key: table[key]  # noqa
+
+    def make():
+        if ckind == "unary-boolean":
+            cond = R.UnaryBooleanRelation("cnd", cvs[0])
+        elif ckind == "function":
             cond = R.NAryFunctionRelation(_mk_func(["c%d" % i for i in range(len(cvs))], lambda key: 3 if table[key] else 0),
                                           cvs, name="cnd")
         else:
@@ -408,14 +428,19 @@ def h_conditional(env):
             for idx in itertools.product(*[range(len(v.domain)) for v in cvs]):
                 m[idx] = 3 if table[tuple(v.domain[i] for v, i in zip(cvs, idx))] else 0
             cond = R.NAryMatrixRelation(cvs, m, name="cnd")
-    if kkind == "matrix":
-        cons, cells = fx.matrix_relation(env, "cns", kvs)
-        value_of = lambda key: cells[key]  # noqa
-    else:
-        tab = fx.LazyTable(env, "cns", kvs)
-        cons = R.NAryFunctionRelation(_mk_func(["k%d" % i for i in range(len(kvs))], tab.cell), kvs, name="cns")
-        value_of = tab.cell
-    rel = R.ConditionalRelation(cond, cons, name="cr", return_neutral=rn)
+        if kkind == "matrix":
+            cons, cells = fx.matrix_relation(env, "cns", kvs)
+            value = lambda key: cells[key]  # noqa
+        else:
+            tab = fx.LazyTable(env, "cns", kvs)
+            cons = R.NAryFunctionRelation(_mk_func(["k%d" % i for i in range(len(kvs))], tab.cell), kvs, name="cns")
+            value = tab.cell
+        return R.ConditionalRelation(cond, cons, name="cr", return_neutral=rn), value
+
+    built = _build(env, "conditional", make)
+    if built is None:
+        return
+    rel, value_of = built
     scope = cvs + [v for v in kvs if v not in cvs]
 
     def truth(a):
